@@ -115,7 +115,7 @@ package rapid
 //@   ensures [new] r0 != nil && fresh(r0) && !r0.shuttingDown && r0.agentsAwaitingExit != nil && r0.runtimeDomainExited != nil
 
 // the execution context is wired to one registration service and its two flows
-//@ spec ctxWired(c *rapidContext) bool = typeis(c.registrationService, *core.registrationServiceImpl) && ref(c.registrationService) != 0 && regWired(c.registrationService.(*core.registrationServiceImpl)) && isInvokeFlow(c.invokeFlow) && isInitFlow(c.initFlow) && c.shutdownContext != nil
+//@ spec ctxWired(c *rapidContext) bool = typeis(c.registrationService, *core.registrationServiceImpl) && ref(c.registrationService) != 0 && regWired(c.registrationService.(*core.registrationServiceImpl)) && isInvokeFlow(c.invokeFlow) && isInitFlow(c.initFlow) && flowsDisjoint(c.initFlow.(*core.initFlowSynchronizationImpl), c.invokeFlow.(*core.invokeFlowSynchronizationImpl)) && c.shutdownContext != nil
 //@ typeinv rapidContext c
 //@   inv ctxWired(c)
 
@@ -277,3 +277,22 @@ package rapid
 //@ func (*shutdownContext).clearExitedChannel
 //@   requires s != nil
 //@   ensures [table-emptied-on-success] r0 == nil ==> len(s.runtimeDomainExited) == 0
+
+// ---------------------------------------------------------------------------------------------
+// C08: a reset leaves no trace of the previous generation
+// ---------------------------------------------------------------------------------------------
+//@ spec regOf(c *rapidContext) *core.registrationServiceImpl = c.registrationService.(*core.registrationServiceImpl)
+//@ spec initGates(c *rapidContext) *core.initFlowSynchronizationImpl = c.initFlow.(*core.initFlowSynchronizationImpl)
+//@ spec invokeGates(c *rapidContext) *core.invokeFlowSynchronizationImpl = c.invokeFlow.(*core.invokeFlowSynchronizationImpl)
+//@ func reinitialize
+//@   requires execCtx != nil && typeis(execCtx.appCtx, *appctx.applicationContext) && ref(execCtx.appCtx) != 0 && execCtx.renderingService != nil
+//@   ensures [no-recorded-error-or-runtime-identity] !has(ctxOf(execCtx.appCtx).m, appctx.AppCtxFirstFatalErrorKey) && !has(ctxOf(execCtx.appCtx).m, appctx.AppCtxRuntimeReleaseKey) && !has(ctxOf(execCtx.appCtx).m, appctx.AppCtxInvokeErrorTraceDataKey)
+//@   ensures [not-initialised] !execCtx.initDone
+//@   ensures [no-renderer] execCtx.renderingService.currentState == nil
+//@   ensures [no-registrations-no-runtime] regOf(execCtx).runtime == nil && regOf(execCtx).state == core.registrationServiceOn && len(regOf(execCtx).externalAgents.byName) == 0 && len(regOf(execCtx).internalAgents.byName) == 0 && (forall k string :: !has(regOf(execCtx).externalAgents.byName, k) && !has(regOf(execCtx).externalAgents.byID, k) && !has(regOf(execCtx).internalAgents.byName, k) && !has(regOf(execCtx).internalAgents.byID, k))
+//@   ensures [no-arrival-or-cancellation-on-init-gates] gateCleared(initGates(execCtx).externalAgentsRegisteredGate) && gateCleared(initGates(execCtx).runtimeReadyGate) && gateCleared(initGates(execCtx).agentReadyGate) && gateCleared(initGates(execCtx).runtimeRestoreReadyGate)
+//@   ensures [no-arrival-or-cancellation-on-invoke-gates] gateCleared(invokeGates(execCtx).runtimeReadyGate) && gateCleared(invokeGates(execCtx).runtimeResponseGate) && gateCleared(invokeGates(execCtx).agentReadyGate)
+
+//@ func (*rapidContext).Clear
+//@   requires r != nil && typeis(r.appCtx, *appctx.applicationContext) && ref(r.appCtx) != 0 && r.renderingService != nil
+//@   ensures [like-a-fresh-context] !r.initDone && regOf(r).runtime == nil && len(regOf(r).externalAgents.byName) == 0 && len(regOf(r).internalAgents.byName) == 0 && !has(ctxOf(r.appCtx).m, appctx.AppCtxFirstFatalErrorKey) && !has(ctxOf(r.appCtx).m, appctx.AppCtxRuntimeReleaseKey)
